@@ -24,6 +24,19 @@ UNITS = [
          functions=["ompl::control::SimpleDirectedControlSampler::getBestControl"], backend="minisat",
          canaries=[dict(name="step_count_not_stored", where="body:gbc", rx=r"sampleSteps = pwv_stub\(", repl="pwv_stub(")]),
 ]
+PWV_LOOP = """
+__CPROVER_assigns(i, temp1, temp2, r, K[S_RES], K[S_TMP], checked_G, invalid_seen, invalid_at, dt_ok)
+__CPROVER_loop_invariant(1 <= i && i <= steps && steps == N0 && r == (unsigned)steps && toDelete == S_TMP && live_tmp && dt_ok && !invalid_seen && K[S_IN] == 0)
+__CPROVER_loop_invariant(((temp1 == S_RES && temp2 == S_TMP) || (temp1 == S_TMP && temp2 == S_RES)) && K[temp1] == i)
+__CPROVER_loop_invariant(G <= i ==> (checked_G && VG))
+__CPROVER_decreases(steps - i)
+"""
+PWV_U = dict(PWV); PWV_U["loops"] = {1: PWV_LOOP}
+UNITS.append(dict(name="c02_propagateWhileValid_unbounded", template="C02/propagate_unb.c", sources=[PWV_U], enforce=["propagateWhileValid"], replace=["propagate", "isValid", "copyState", "allocState", "freeState"],
+                  flags=D.PFLAGS + ["--no-malloc-may-fail", "--object-bits", "12"], level="proof", bound="|steps| <= 10^6, unbounded in the loop", backend="minisat", timeout=600, expect_loops=1,
+                  functions=["ompl::control::SpaceInformation::propagateWhileValid(state, control, steps, result)"], confirm=dict(unwind=6, defines={}),
+                  canaries=[dict(name="reports_requested_steps", where="body:pwv", rx=r"r = i;", repl="r = i + 1;"), dict(name="temp_not_freed", where="body:pwv", rx=r"freeState\(toDelete\);", repl="")]))
+
 # control sampler: RealVector-style per-coordinate loop, ghost coordinate (unbounded, dimension <= 64)
 CS = dict(name="ctrl_sample", file=RVC, sig=r"void ompl::control::RealVectorControlUniformSampler::sample\(Control \*control\)",
           rules=[(r"const unsigned int dim = space_->getDimension\(\);", "const unsigned int dim = dimension_;", 0),
